@@ -19,6 +19,9 @@ def Case.inC16 (c : Case) : Bool := c.mode = .std && !c.fam.passThrough
 /-- verdict of every applicable monitor on a (newest-first) trace: `(property id, holds)` -/
 def holdsAll (c : Case) (nch : Nat) (t : List Ev) : List (String × Bool) :=
   [("C01", holds_C01 nch t),
+   -- "no poll unwinds unless a child panicked in it, no waker invocation panics": the part of
+   -- C01 every functional check also evaluates (a panic is never an acceptable answer)
+   ("NP", c01NoPanic t),
    ("C02", holds_C02 (!c.fam.isGroup) nch t),
    ("C03", holds_C03 c.fam.isGroup t)]
   ++ (if c.inC16 then [("C16", holds_C16 t)] else [])
